@@ -173,6 +173,21 @@ class Evaluator:
             self._block(st.finalbody, env)
         elif isinstance(st, ast.Global):
             env.setdefault("\0globals", set()).update(st.names)
+        elif isinstance(st, ast.Delete):
+            for t in st.targets:
+                if isinstance(t, ast.Subscript):
+                    base = self._expr(t.value, env)
+                    key = self._expr(t.slice, env)
+                    if not isinstance(base, (dict, list)):
+                        raise Unsupported("del on " + type(base).__name__)
+                    try:
+                        del base[key]
+                    except (KeyError, IndexError) as ex:
+                        raise Raised(type(ex).__name__)
+                elif isinstance(t, ast.Name) and t.id in env:
+                    del env[t.id]
+                else:
+                    raise Unsupported("del " + ast.unparse(t)[:30])
         else:
             raise Unsupported(f"statement {type(st).__name__}")
 
